@@ -13,8 +13,8 @@ META = {
                   'nonlast-padded', 'eflr-continuation', 'contract-evals-make_segment', 'contract-evals-make_segments'],
     },
     'exhaustive_windows': {
-        'quick': ['record lengths 32,34,36,40,64,126,128,8192,16384 x body lengths k*cap+d, k in 0..4, d in -14..14'],
-        'thorough': ['every even record length 32..160 x body lengths k*cap+d, k in 0..4, d in -14..14'],
+        'quick': ['record lengths 20,22,30,32,34,36,40,64,126,128,8192,16384 x body lengths k*cap+d, k in 0..4, d in -14..14 (>= 4)'],
+        'thorough': ['every even record length 20..160 x body lengths k*cap+d, k in 0..4, d in -14..14 (>= 4)'],
     },
     'assumptions': ['the lr-tap reports the body exactly as handed to LogicalRecordBytes.make_segments',
                     'strict reader vf/rp66.py reassembles per RP66 V1 2.2.2'],
